@@ -5,7 +5,7 @@
     elements ([link_flatten]). *)
 From Coq Require Import NArith List Bool Lia PeanoNat Permutation.
 From SV Require Import Text.Str Text.Escape Text.Tokenizer Fmt.DmxKv2 Fmt.DmxKv2Proofs Fmt.DmxKv2Nested Fmt.DmxKv2NestedProofs
-  Fmt.DmxKv2Graph Fmt.DmxKv2GraphProofs Fmt.DmxKv2GraphUnique.
+  Fmt.DmxKv2Graph Fmt.DmxKv2GraphProofs Fmt.DmxKv2GraphUnique Fmt.DmxKv2GraphFuel.
 Import ListNotations.
 Open Scope nat_scope.
 
@@ -62,6 +62,10 @@ Lemma rule_nodup : NoDup (K g isroot (seq 0 (length g))).
 Proof.
   apply non_roots_used_once_nodup. intros j Hj. apply (non_root_used_at_most_once fold vtnames c Hc false g j Hj).
 Qed.
+
+(** the writer's recursion ends: the tree of blocks exists *)
+Theorem nest_total : exists d, nest_doc g isroot false = Some d.
+Proof. destruct (graph_ok_parts Hg) as [_ Hr]. exact (nest_doc_total g isroot Hr rule_nodup). Qed.
 
 (** sharing: no element is written twice *)
 Theorem nest_written_once d : nest_doc g isroot false = Some d -> written_once d = true.
